@@ -1662,6 +1662,10 @@ static iwrc _fsm_reallocate(struct IWFS_FSM *f, off_t nlen, off_t *oaddr, off_t 
     rc = IWFS_ERROR_FSM_SEGMENTATION;
     goto finish;
   }
+  if (IW_UNLIKELY(fsm->oflags & IWFSM_STRICT)) {
+    /* The old range is released only after the new one was allocated: check it before anything changes. */
+    RCC(rc, finish, _fsm_set_bit_status_lw(fsm, oaddr_blk, olen_blk, 0, FSM_BM_DRY_RUN | FSM_BM_STRICT));
+  }
   if (nlen_blk < olen_blk) {
     rc = _fsm_blk_deallocate_lw(fsm, oaddr_blk + nlen_blk, olen_blk - nlen_blk);
     if (!rc) {
